@@ -20,6 +20,8 @@ STORAGE_CATS = ('convert-from-unit', 'from-storage', 'storage-label', 'storage-c
 def run(ctx):
     from .configtime import derived_values as _derived
     _derived(ctx, 'C12.R3', ('Container', 'Unit', 'Substance'))
+    from .configtime import decisions_not_taken_on_display_values as _coarse
+    _coarse(ctx, 'C12.R3', ('Container', 'Plate', 'PlateSlicer', 'Recipe', 'RecipeStep'))
     model = ctx.model
     from . import unitspec as _us
     _us.api_verified(ctx, 'C12.R1')
